@@ -336,11 +336,16 @@ def compare_call(drv, tree, X, T, keep, cap, proba, out, eps, res, stats, check_
     q = {'op': 'soft', 'tree': tree_json(tree), 'rows': core.fl(Xd), 'T': core.f2b(T), 'keep': core.f2b(keep),
          'cap': int(cap), 'preds': core.fl(preds)}
     m = drv.ask(q)
-    if 'error' in m:
+    no_model = 'error' in m
+    if no_model:
+        # the Lean model is unavailable (e.g. it no longer builds against the regenerated Gen): the comparison with it is
+        # recorded as broken, the property oracle below still runs on the implementation
         res['disagreements'].append({'detail': f'model rejects the case: {m["error"]}'})
-        return
     # ---- cache (exact) ----
-    if check_cache:
+    if check_cache and no_model:
+        for sig, detail in cache_oracle(tree):
+            res['failures'].append({'signature': sig, 'detail': detail})
+    if check_cache and not no_model:
         want_models = [lm.ident for lm in leaf_models]
         paths = [[[a, bool(b)] for a, b in c['leaf_paths'][lid]] for lid in order]
         nids = list(c['split_directions'].keys())
@@ -360,7 +365,7 @@ def compare_call(drv, tree, X, T, keep, cap, proba, out, eps, res, stats, check_
     obj2ref = {id(lf['model']): r for r, lf in enumerate(lv)}
     pos2ref = [obj2ref[id(lm)] for lm in leaf_models]                     # implementation cache position -> ref
     ident2ref = {lf['model'].ident: r for r, lf in enumerate(lv)}
-    mod2ref = [ident2ref.get(pid, -1) for pid in m['leaf_models']]         # model cache position -> ref
+    mod2ref = list(range(N)) if no_model else [ident2ref.get(pid, -1) for pid in m['leaf_models']]   # model cache position -> ref
     if sorted(mod2ref) != list(range(N)):
         res['disagreements'].append({'detail': f'model leaf payloads {m["leaf_models"]} are not the tree\'s leaves'})
         return m
@@ -382,6 +387,8 @@ def compare_call(drv, tree, X, T, keep, cap, proba, out, eps, res, stats, check_
             res['failures'].append({'signature': sig, 'detail': f'row {i}: {detail}'})
         if ratio is not None:
             stats['max_dev_over_allow'] = max(stats['max_dev_over_allow'], ratio)
+        if no_model:
+            continue
         # Lean model, re-indexed to reference order
         mr = m['rows'][i]
 
@@ -475,7 +482,7 @@ def build_synth(p):
             v = rnd(d) * p.get('vnorm', 1.0)
             x0 = rnd(d) * p.get('spread', 1.0) * 0.7
             b = float((v * x0).sum())
-            scale = float(math.exp(float(torch.rand(1, generator=g)) * math.log(25.0) + math.log(0.2)))
+            scale = float(math.exp(float(torch.rand(1, generator=g)) * math.log(25.0) + math.log(0.2))) * p.get('scale_mult', 1.0)
         bt = torch.tensor(b, dtype=dt)
         node = {'type': 'split' if torch.rand(1, generator=g) < 0.5 else 'node', 'split_direction': v,
                 'split_point': bt if p.get('thr_kind', 'tensor') == 'tensor' else float(bt),
@@ -486,6 +493,15 @@ def build_synth(p):
 
     tree = build(p['shape'], True)
     X = rnd(p['n_rows'], d) * (1.0 if ints else p.get('spread', 1.0))
+    if p.get('near_root') and tree['type'] != 'leaf':
+        # half of the rows are moved to within 1e-6 .. 1e-2 (relative to |v|) of the root threshold, on either side: the
+        # region where a gate with a tiny temperature x scale is neither 0 nor 1
+        v = tree['split_direction'].double()
+        b = float(tree['split_point'])
+        for i in range(0, X.shape[0], 2):
+            delta = float(10.0 ** (-6 + 4 * float(torch.rand(1, generator=g)))) * float(v.norm()) * (1 if i % 4 == 0 else -1)
+            xi = X[i].double()
+            X[i] = (xi + (b + delta - float(xi @ v)) / float(v @ v) * v).to(dt)
     return tree, X, g
 
 
@@ -798,6 +814,12 @@ def gen_cases(run):
     for i in range(24 if quick else 240):
         shape = random_shape(r, r.randint(1, 5), r.choice(styles))
         cases.append(synth_case(r, 'small-T-equals-hard', shape, kind='smallT', T=1e-3, api='tree', n_rows=60))
+    # (4b) tiny gate temperature x node scale (1e-6 .. 1e-3) with rows a hair away from the root threshold
+    for i in range(24 if quick else 240):
+        shape = random_shape(r, r.randint(1, 3), r.choice(styles))
+        cases.append(synth_case(r, 'tiny-gate-temperature', shape, T=r.choice([1e-4, 3e-4, 1e-3, 3e-3]), scale_mult=r.choice([0.01, 0.05, 0.3]),
+                                near_root=True, default_scale=False, dtype='f64', keep=r.choice([0.5, 0.9, 0.99, 1.0]), n_rows=40,
+                                api=r.choice(['tree', 'predict'])))
     # (5) dispatch
     for i in range(16 if quick else 120):
         shape = random_shape(r, r.randint(0, 4), r.choice(styles))
